@@ -14,6 +14,8 @@ A unit template (contracts/verus/<unit>.rs.tmpl) is a Verus source file in which
         <invariant / decreases clauses, placed before the `{` opening that loop's body>
     insert loopend "<literal prefix of a loop header>":
         <ghost lines, placed at the end of that loop's body (does not depend on the statements of the body)>
+    insert loopstart "<literal prefix of a loop header>":
+        <ghost lines, placed at the start of that loop's body>
     (`insert before all` / `after all` / `loopinv all`: the same lines at every occurrence -- twin loops)
     rewrite "<literal>" => "<literal>"
     @*/
@@ -459,6 +461,10 @@ def apply_edits(fn_name, sig2, body2, rewrites, inserts, notes):
             k2 = find_body_open(body2, k + len(anchor))
             k3 = match_brace(body2, k2) - 1
             body2 = body2[:k3].rstrip() + "\n" + text + body2[k3:]
+        elif where == "loopstart":
+            # at the start of the body of the loop whose header starts with the anchor (same independence as loopend)
+            k2 = find_body_open(body2, k + len(anchor))
+            body2 = body2[:k2 + 1] + "\n" + text + body2[k2 + 1:]
         elif where == "after":
             k2 = k + len(anchor)
             body2 = body2[:k2] + "\n" + text + body2[k2:]
@@ -749,7 +755,7 @@ def _parse_fn_block(block):
             flush()
             cur = ("spec", None)
             continue
-        m = re.match(r'insert (before|after|loopinv|loopend)( first| all)? "(.*)":$', st)
+        m = re.match(r'insert (before|after|loopinv|loopend|loopstart)( first| all)? "(.*)":$', st)
         if m:
             flush()
             # `first`: the anchor may occur several times, the first occurrence is meant (robust against edits that add more)
